@@ -96,6 +96,18 @@ claim('C14',
       'TLA+ spec (Static.tla) + TLC exhaustive + fault-injection replay of every TLC-enumerated behaviour',
       'DESIGN.md 3/C14')
 
+claim('C16',
+      'Cookie.tla models signed-cookie sessions: clients with a jar entry (server-issued token / garbage / nothing), tokens [data, expiry], '
+      'a clock, requests (set/del/clear/read), tampering and forging (12 kinds), replay of old tokens; Present(jar) = the token\'s data iff it '
+      'is server-issued and unexpired, else empty; the server must re-issue when data changed and may re-issue otherwise. TLC checks '
+      'OnlySignedData, GarbageIsEmpty, NeverPresentExpired for session / never / numeric expiry. Bound to the code by trace validation: '
+      'TLC-generated and seeded random histories are executed against the real SignedCookieMiddleware with an injected clock and a '
+      'harness-held jar (byte surgery on the raw Set-Cookie value; re-signing with another key); every request event records what the '
+      'endpoint saw, the status and whether a token was issued, and TLC validates the whole history (Cookie_Trace).',
+      'Trusted: TLC; injected time (module-attribute shims); http.cookies for parsing Set-Cookie; HMAC strength is outside the model.',
+      'TLA+ spec (Cookie.tla) + TLC exhaustive + trace validation of executed session histories (Cookie_Trace.tla)',
+      'DESIGN.md 3/C16')
+
 claim('C19',
       'TLC model-checks Reservoir.tla (algorithm shaped like Reservoir.add/resize refines the property relation; '
       'Bounded/OnlyAdded/NeverRaises/ExactCount in every reachable state, all replacement indices, all resize points) '
